@@ -1,6 +1,6 @@
 (* facts about the case tables regenerated from the toolchain (Gen/GenUnicode.v): finite sweeps over the tables, lifted to every text *)
 Require Import ZArith NArith Bool List Arith Lia. Import ListNotations.
-Require Import F64 Dec Types Generic Lang GenUnicode Builtins Env.
+Require Import F64 Dec Types Generic Lang GenUnicode CaseModel Builtins Env.
 
 Lemma assoc_sorted_in c l v : assoc_sorted c l = Some v -> In (c, v) l.
 Proof.
@@ -17,9 +17,39 @@ Proof.
   - apply assoc_sorted_in in E. pose proof (proj1 (forallb_forall _ _) lower_tab_stable _ E) as S. unfold stable_entry in S. cbn [snd] in S. apply leqb_eq in S. exact S.
   - cbn [flat_map]. rewrite app_nil_r. unfold u_lower. rewrite E. reflexivity.
 Qed.
-(* lower-casing is idempotent on every text: the key of a key is the key itself *)
+(* lower-casing never produces a capital sigma, and a text without one is lower-cased character by character *)
+Definition no_sigma (s:list N) : bool := forallb (fun c => negb (c =? 931)%N) s.
+Lemma lower_tab_no_sigma : forallb (fun kv : N * list N => no_sigma (snd kv)) lower_tab = true.
+Proof. vm_compute. reflexivity. Qed.
+Lemma u_lower_no_sigma c : (c =? 931)%N = false -> no_sigma (u_lower c) = true.
+Proof.
+  intros Hc. unfold u_lower. destruct (assoc_sorted c lower_tab) as [v|] eqn:E.
+  - apply assoc_sorted_in in E. exact (proj1 (forallb_forall _ _) lower_tab_no_sigma _ E).
+  - cbn. rewrite Hc. reflexivity.
+Qed.
+Lemma no_sigma_app a b : no_sigma (a ++ b) = no_sigma a && no_sigma b.
+Proof. apply forallb_app. Qed.
+Lemma lower_ctx_no_sigma b s : no_sigma (lower_ctx b s) = true.
+Proof.
+  revert b; induction s as [|c r IH]; intros b; [reflexivity|]. cbn [lower_ctx]. rewrite no_sigma_app, IH, andb_true_r.
+  destruct (c =? 931)%N eqn:E; [destruct (first_cased b && negb (first_cased r)); reflexivity | apply u_lower_no_sigma, E].
+Qed.
+Lemma lower_ctx_plain b s : no_sigma s = true -> lower_ctx b s = flat_map u_lower s.
+Proof.
+  revert b; induction s as [|c r IH]; intros b H; [reflexivity|]. cbn [no_sigma forallb] in H. apply andb_prop in H as [Hc Hr]. apply negb_true_iff in Hc.
+  cbn [lower_ctx flat_map]. rewrite Hc. f_equal. apply IH, Hr.
+Qed.
+Lemma sigma_fix : u_lower 962 = [962%N] /\ u_lower 963 = [963%N].
+Proof. split; vm_compute; reflexivity. Qed.
+Lemma lower_ctx_fixed b s : flat_map u_lower (lower_ctx b s) = lower_ctx b s.
+Proof.
+  revert b; induction s as [|c r IH]; intros b; [reflexivity|]. cbn [lower_ctx]. rewrite flat_map_app, IH. f_equal.
+  destruct (c =? 931)%N; [|apply u_lower_idem]. destruct sigma_fix as [F1 F2].
+  destruct (first_cased b && negb (first_cased r)); cbn [flat_map]; rewrite ?F1, ?F2; reflexivity.
+Qed.
+(* lower-casing is idempotent on every text (final-sigma rule included): the key of a key is the key itself *)
 Theorem lower_str_idem s : lower_str (lower_str s) = lower_str s.
-Proof. unfold lower_str. induction s as [|c r IH]; [reflexivity|]. cbn [flat_map]. rewrite flat_map_app, IH, u_lower_idem. reflexivity. Qed.
+Proof. unfold lower_str. rewrite (lower_ctx_plain [] (lower_ctx [] s)) by apply lower_ctx_no_sigma. apply lower_ctx_fixed. Qed.
 Theorem fold_name_idem n : fold_name (fold_name n) = fold_name n.
 Proof. apply lower_str_idem. Qed.
 (* on ASCII the tables are the ASCII rule *)
